@@ -60,7 +60,8 @@ def selections(graph):
                 continue
             idx = t.args[1]
             items = list(idx.args[0]) if idx.op == 'tuple' else [idx]
-            regular = [c for c, _ in hit if id(c) not in in_handler] or [c for c, _ in hit]
+            regular = [c for c, _ in hit if id(c) not in in_handler]
+            # (a selection that only ever sees the fallback decomposition - written inside the handler itself - is exempt like the shared one after the try)
             sels.append(dict(term=t, sources=hit, items=items, sorted=all(calls[id(c)][1] for c in regular)))
     return sels
 
